@@ -40,6 +40,7 @@ def run_pipeline(ck, pid, tier, replay):
         nprog = 40 if thorough else 6
         progs = progen.corpus(seed() + 11, nprog, nstmts=12 if thorough else 8) + [DEEP, KERN]
         progs += vmtrace.cycle_boundary_programs(wd, targets=(62, 63, 64, 126, 127, 128, 254, 255, 256) if thorough else (63, 127))
+        progs += [p for p in vmtrace.chiplet_boundary_programs(False) if thorough or p["class"] == "chiplets-55"]
     else:
         progs = [DEEP, KERN] + progen.corpus(seed() + 13, 6 if thorough else 1, classes=["mixed", "mem"], nstmts=8)
     recs, meta = [], []
